@@ -153,22 +153,41 @@ def prop_client_tx(ops, obs):
 
 
 def prop_server_tx(cas, ops, obs):
+    """per connected peer: wire + pending = queued for it; a ValueError only when a queued packet is
+    addressed to a non-connection; and packets for connected peers are handed to their connection
+    whatever happens to packets for gone peers: once a run of consecutive stack passes is longer
+    than the number of queued packets addressed to non-connections, the stack queue is empty"""
     queued = {}
     if obs and obs[0][0].startswith("EXC"):
         return "internal error %s while servicing connects" % obs[0][0]
+    live = set(cas)
+    prevq = []
+    run_len, run_unknown = 0, 0
     for op, o in zip(ops, obs):
         if o[0].startswith("EXC"):
             return "internal error %s" % o[0]
         if op[0] == 'enq':
             queued.setdefault(op[2], b"")
             queued[op[2]] += op[1]
+        if op[0] == 'drop':
+            live.discard(op[1])
         _, q, conns, err = o
-        if err and all(c in cas for _, c in [(x[1], x[2]) for x in ops if x[0] == 'enq']):
-            return "ValueError although every destination is a connected peer"
+        if op[0] == 'stk':
+            if run_len == 0:
+                run_unknown = sum(1 for _, c in prevq if c not in live)
+            run_len += 1
+            if err and all(c in live for _, c in prevq):
+                return "ValueError although every queued destination is a connected peer"
+            if run_len > run_unknown and q:
+                return ("%d stack passes over a queue with %d packets for gone peers left %d packets "
+                        "untransmitted: %r" % (run_len, run_unknown, len(q), q))
+        else:
+            run_len = 0
         for ca, txes, wire, cutf in conns:
             pend = b"".join(txes) + b"".join(p for p, c in q if c == ca)
             if wire + pend != queued.get(ca, b""):
                 return "peer %d: wire + pending differ from the packets queued for it" % ca
+        prevq = q
     return None
 
 
@@ -326,7 +345,8 @@ def run(ctx):
         ctx.case({"side": "server-tx", "cas": cas, "ops": [[o[0]] + [list(x) if isinstance(x, bytes) else x for x in o[1:]] for o in ops]},
                  nontrivial=partial, kind=kind)
         cops = clist(["(SEnq %s %s)" % (c_b(o[1]), cz(o[2])) if o[0] == 'enq' else
-                      ("SSvcStack" if o[0] == 'stk' else "(SSvcConns %s)" % c_sorc(o[1])) for o in ops], "sop")
+                      ("SSvcStack" if o[0] == 'stk' else
+                       ("(SDrop %s)" % cz(o[1]) if o[0] == 'drop' else "(SSvcConns %s)" % c_sorc(o[1]))) for o in ops], "sop")
         cases.append(("(trace_s (s_init %s) %s)" % (clist([cz(c) for c in cas], "Z"), cops),
                       clist([cz(x) for x in flat_server_tx(obs)], "Z")))
         metas.append(("server-tx", (cas, ops), obs, None))
@@ -341,14 +361,24 @@ def run(ctx):
         ops = []
         for _ in range(rng.randint(2, 14)):
             x = rng.random()
-            if x < 0.45:
-                ca = rng.choice(cas) if rng.random() < 0.95 else 7777
+            if x < 0.08:
+                ops.append(('drop', rng.choice(cas)))
+            elif x < 0.45:
+                ca = rng.choice(cas) if rng.random() < 0.9 else 7777
                 ops.append(('enq', rnd_bytes(rng), ca))
             elif x < 0.7:
                 ops.append(('stk',))
             else:
                 ops.append(('cns', rnd_sorc(rng)))
-        add_stx(cas, ops + [('stk',), ('cns', [])], "server-tx-rnd")
+        nq = sum(1 for o in ops if o[0] == 'enq')
+        add_stx(cas, ops + [('stk',)] * (nq + 1 if rng.random() < 0.5 else 1) + [('cns', [])], "server-tx-rnd")
+    # packets for a gone peer (never connected: 7777, or connected then dropped: 5001) in front of /
+    # between packets for a live peer; then enough stack passes (one ValueError each at most)
+    for gone, pre in ((7777, []), (5001, [('drop', 5001)]), (5001, [('enq', b"x", 5001), ('stk',), ('drop', 5001)])):
+        for n in range(1, 4):
+            for dests in itertools.product([gone, 5002], repeat=n):
+                q = [('enq', bytes([65 + i, 97 + i]), d) for i, d in enumerate(dests)]
+                add_stx([5001, 5002], pre + q + [('stk',)] * (n + 1) + [('cns', [])], "server-tx-gone-peer")
 
     # ---------------- server rx ----------------
     def add_srx(cas, ops, kind):
